@@ -753,12 +753,19 @@ class Interp:
             cur = st.get(key, None) if key is not None else None
             if not (isinstance(cur, tuple) and cur[:1] == ("tuple",)):
                 return None
-            first = bool(call.args) and isinstance(call.args[0], ast.Constant) and call.args[0].value == 0
-            if call.args and not first and not (isinstance(call.args[0], ast.Constant) and call.args[0].value == -1):
-                return None
-            if len(cur) == 1:
+            index = -1
+            if call.args:
+                try:
+                    index = ast.literal_eval(call.args[0])   # (-1 is a unary minus applied to 1)
+                except (ValueError, TypeError, SyntaxError):
+                    return None
+                if not isinstance(index, int) or isinstance(index, bool):
+                    return None
+            items = list(cur[1:])
+            if not -len(items) <= index < len(items):
                 return [exc(("exc", "IndexError"), st)]
-            return [val(cur[1] if first else cur[-1], st.set(key, ("tuple",) + (cur[2:] if first else cur[1:-1])))]
+            popped = items.pop(index)
+            return [val(popped, st.set(key, ("tuple",) + tuple(items)))]
         if not (isinstance(f, ast.Attribute) and f.attr in ("append", "extend") and len(call.args) == 1 and not call.keywords):
             return None
         if getattr(self.domain, "heap", False) and any(isinstance(n_, ast.Call) for n_ in ast.walk(f.value)):
